@@ -483,12 +483,134 @@ Definition parse_imax_gen (empty : bool) (iv : option Z) : option bool := if emp
 Definition istop_values_gen : list string := [{"; ".join('"%s"' % x for x in stops)}].''')
 
 
+# ------------------------------------------------------------------------------------------------ operator tables
+def coq_str(x):
+    return '"' + x.replace('"', '""') + '"'
+
+
+def parse_theory_text(txt):
+    """`#theory name { table { op : prio, unary|binary[, left|right]; ... }; &atom/arity : table, kind ... }.` -> (name, {table: entries}, [atom decls])"""
+    txt = re.sub(r'%[^\n]*', '', txt)
+    m = re.match(r'\s*#theory\s+(\w+)\s*\{(.*)\}\s*\.\s*$', txt, re.S)
+    if not m:
+        raise Unsupported('theory text shape')
+    name, body = m.group(1), m.group(2)
+    tables, decls = {}, []
+    pos = 0
+    for tm in re.finditer(r'(\w+)\s*\{(.*?)\}\s*;', body, re.S):
+        ents = []
+        for item in tm.group(2).split('\n'):
+            item = item.strip()
+            if not item:
+                continue
+            im = re.match(r'^(\S+)\s*:\s*(\d+)\s*,\s*(unary|binary)(?:\s*,\s*(left|right))?\s*;?$', item)
+            if not im:
+                raise Unsupported('table entry: ' + item)
+            op, prio, ar, assoc = im.groups()
+            if (ar == 'unary') != (assoc is None):
+                raise Unsupported('table entry arity/assoc: ' + item)
+            ents.append((op, ar == 'unary', int(prio), assoc))
+        tables[tm.group(1)] = ents
+        pos = tm.end()
+    for item in body[pos:].split(';'):
+        item = item.strip()
+        if item:
+            im = re.match(r'^&(\w+)/(\d+)\s*:\s*(\w+)\s*,\s*(\w+)$', item)
+            if not im:
+                raise Unsupported('theory atom declaration: ' + item)
+            decls.append(im.groups())
+    return name, tables, decls
+
+
+def table_coq(ents):
+    return '[' + '; '.join('(%s, %s, %d, %s)' % (coq_str(o), 'true' if u else 'false', p, {'left': 'ALeft', 'right': 'ARight', None: 'ANone'}[a]) for o, u, p, a in ents) + ']'
+
+
+def gen_tables(out):
+    tree = parse('telingo/transformers/__init__.py')
+    tf = find_fun(tree, 'transform')
+    texts = []
+    for n in ast.walk(tf):
+        if isinstance(n, ast.Call) and ast.unparse(n.func) == '_ast.parse_string' and n.args and isinstance(n.args[0], ast.Call) and ast.unparse(n.args[0].func) == '_dedent':
+            c = n.args[0].args[0]
+            if not (isinstance(c, ast.Constant) and isinstance(c.value, str)):
+                raise Unsupported('theory text argument')
+            texts.append(c.value)
+    th = {}
+    for t in texts:
+        name, tables, decls = parse_theory_text(t)
+        th[name] = (tables, decls)
+    if set(th) != {'tel', 'del'}:
+        raise Unsupported('theories: ' + repr(sorted(th)))
+    tel_t, tel_d = th['tel']
+    del_t, del_d = th['del']
+    if set(tel_t) != {'formula_body', 'formula_head'} or set(del_t) != {'formula_body'}:
+        raise Unsupported('theory tables')
+    # Python table of the head parser
+    tree = parse('telingo/transformers/head.py')
+    cls = [n for n in ast.walk(tree) if isinstance(n, ast.ClassDef) and n.name == 'TheoryParser'][0]
+    consts = {}
+    tab = None
+    for st in cls.body:
+        if isinstance(st, ast.Assign) and isinstance(st.targets[0], ast.Tuple) and isinstance(st.value, ast.Tuple):
+            for t, v in zip(st.targets[0].elts, st.value.elts):
+                consts[t.id] = v.value
+        if isinstance(st, ast.Assign) and ast.unparse(st.targets[0]) == 'table':
+            tab = st.value
+    if tab is None or not isinstance(tab, ast.Dict) or set(consts) != {'unary', 'binary', 'left', 'right'} or consts['unary'] is not True or consts['binary'] is not False \
+            or consts['left'] is not True or consts['right'] is not False:
+        raise Unsupported('TheoryParser constants/table')
+    py = []
+    for k, v in zip(tab.keys, tab.values):
+        if not (isinstance(k, ast.Tuple) and isinstance(k.elts[0], ast.Constant) and isinstance(k.elts[1], ast.Name) and isinstance(v, ast.Tuple) and isinstance(v.elts[0], ast.Constant)):
+            raise Unsupported('TheoryParser.table entry')
+        un = consts[k.elts[1].id]
+        a = v.elts[1]
+        assoc = None if (isinstance(a, ast.Constant) and a.value is None) else ('left' if consts[a.id] else 'right')
+        if un != (assoc is None):
+            raise Unsupported('TheoryParser.table arity/assoc')
+        py.append((k.elts[0].value, un, v.elts[0].value, assoc))
+    # __check: previous_priority > priority or (previous_priority == priority and associativity)
+    chk = find_fun(tree, '__check', 'TheoryParser')
+    ret = [x for x in chk.body if isinstance(x, ast.Return)][-1]
+    cc = Ctx({'prev': 'nat', 'prio': 'nat', 'assoc_left': 'bool'}, subst={'previous_priority': 'prev', 'priority': 'prio', 'associativity': 'assoc_left'})
+    check = boolx(cc, ret.value)
+    # keyword list and operator sets
+    kw = None
+    for st in tree.body:
+        if isinstance(st, ast.Assign) and ast.unparse(st.targets[0]) == 'g_tel_keywords':
+            kw = [e.value for e in st.value.elts]
+    tree = parse('telingo/theory/formula.py')
+    sets = {}
+    for st in tree.body:
+        if isinstance(st, ast.Assign) and isinstance(st.value, ast.Set):
+            sets[ast.unparse(st.targets[0])] = sorted(e.value for e in st.value.elts)
+    need = ['g_binary_operators', 'g_unary_operators', 'g_arithmetic_operators', 'g_tel_operators', 'g_del_operators', 'g_path_unary_operators', 'g_path_binary_operators']
+    if kw is None or any(n not in sets for n in need):
+        raise Unsupported('operator sets')
+    lines = ['(* ---- operator tables: #theory texts in transformers/__init__.py, TheoryParser.table in transformers/head.py, operator sets in theory/formula.py ---- *)',
+             'Inductive assoc := ALeft | ARight | ANone.',
+             'Definition tentry := (string * bool * nat * assoc)%type.    (* operator, unary?, priority, associativity *)',
+             'Definition tel_body_table_gen : list tentry := %s.' % table_coq(tel_t['formula_body']),
+             'Definition tel_head_table_gen : list tentry := %s.' % table_coq(tel_t['formula_head']),
+             'Definition del_table_gen : list tentry := %s.' % table_coq(del_t['formula_body']),
+             'Definition py_head_table_gen : list tentry := %s.' % table_coq(py),
+             'Definition theory_atoms_gen : list (string * nat * string * string) := [%s].' % '; '.join(
+                 '(%s, %s, %s, %s)' % (coq_str(a), n, coq_str(t), coq_str(k)) for a, n, t, k in tel_d + del_d),
+             'Definition parser_check_gen (prev prio : nat) (assoc_left : bool) : option bool := %s.' % check,
+             'Definition tel_keywords_gen : list string := [%s].' % '; '.join(coq_str(x) for x in kw)]
+    for n in need:
+        lines.append('Definition %s_gen : list string := [%s].' % (n, '; '.join(coq_str(x) for x in sets[n])))
+    out.append('\n'.join(lines))
+
+
 # ------------------------------------------------------------------------------------------------ main
 # group -> (generated file under coq/Gen, fragment functions, Requires)
 GROUPS = {
     'imain': ('FromSource.v', [gen_imain], ['GenPrelude']),
     'transformers': ('FromTransformers.v', [gen_transformers], ['GenPrelude']),
     'app': ('FromApp.v', [gen_app], ['GenPrelude']),
+    'tables': ('FromTables.v', [gen_tables], ['GenPrelude']),
 }
 VERIF = os.path.dirname(os.path.dirname(os.path.abspath(__file__)))
 GEN = os.path.join(VERIF, 'coq', 'Gen')
